@@ -10,17 +10,16 @@ META = {
     "technique": "Coq proof of write/read round trip over a Gallina model of the value path (JSON number -> float64 -> Go int, "
                  "bool <-> 0/1, bound TEXT, UTC RFC 3339 time binding) + vm_compute correspondence and a direct round-trip oracle "
                  "through the real TableCreate / InsertRows / ReadRows handlers on a SQLite file",
-    "text": "Theorem C18_roundtrip_partial: for column types int, bool, string, timestamp every representable value (integers of "
-            "magnitude <= 2^53, both booleans, every string incl. quotes/Unicode/NUL/empty, every instant to the nanosecond) is "
-            "read back as the same value over the model of the repaired code; C18_current_schema: after any history of create / "
-            "drop / write / read / schema-cache entry loss on one table name, a value written now is coerced and read with the "
-            "current table's column type (C18_stale_schema_refuted: not if only the write-side cache entry were evicted); "
-            "C18_int_refuted / C18_int_max_refuted: int values "
-            "beyond 2^53 do not come back (JSON numbers pass through float64; the largest int64 comes back as the smallest) - "
-            "confirmed on the real handlers and recorded; C18_old_refuted: the code before fix 333e4229 dropped the fractional "
-            "second of timestamps - confirmed and repaired. partial: float32/float64, date and time-of-day columns, and the "
-            "text-level RFC 3339 formatting/parsing are only observed through the real handlers (time-of-day values such as "
-            "12:30:45 are misparsed: recorded finding), int beyond 2^53 is a recorded finding, PostgreSQL is not exercised",
+    "text": "Theorems over the model of the repaired code: C18_roundtrip_full - for column types int, bool, string, timestamp EVERY "
+            "value of the documented type (the whole int64 range, both booleans, every string incl. quotes/Unicode/NUL/empty, every "
+            "instant to the nanosecond) is read back as itself; C18_roundtrip_columns adds date columns (same day) and time columns "
+            "(a time of day hh:mm:ss.fraction comes back as the same time of day); C18_current_schema_full: the same after any history "
+            "of create / drop / write / read / schema-cache loss on one table name; C18_float_roundtrip: float columns, from the "
+            "premises that strconv formatting/parsing round-trips and a REAL cell returns what was bound (all finite values but -0). "
+            "Old code refuted and repaired on the real handlers: C18_int_refuted / C18_int_max_refuted (numbers through float64, fix "
+            "4112ced4 + 6d076279), C18_old_refuted (fractional second dropped, fix 333e4229), time of day misparsed (fix c281d43a). "
+            "partial: the text level of RFC 3339 / decimal floats (time.Format, the driver's parsing, strconv) is a premise observed on "
+            "every run, not modelled; float32 columns, NULLs, UPDATE, PostgreSQL are not exercised",
     "note": "Trusted: Coq kernel; the hand-written model (f64 = round-to-nearest-even of an integer, to_int = amd64 conversion) tied "
             "by the correspondence run; SQLite stores INTEGER/REAL/TEXT cells exactly; time.Format/modernc parsing of RFC 3339 "
             "text are inverse on UTC instants (observed, not modelled); the overlay harness and the Python comparison.",
@@ -146,7 +145,7 @@ def run(ck):
               "Go float64 -> int conversion of an out-of-range value yields -2^63 (amd64)")
     ck.trusted("harness/C18/c18_test.go (in-package overlay), props/C18.py generators, RFC 3339 rendering/parsing in Python",
                "correspondence evaluated by vm_compute in a generated cases file")
-    ck.coq_stage(GROUP, theorems=["C18_roundtrip_full", "C18_roundtrip_columns", "C18_current_schema_full", "C18_roundtrip_partial", "C18_current_schema", "C18_int_refuted", "C18_int_max_refuted", "C18_old_refuted",
+    ck.coq_stage(GROUP, theorems=["C18_roundtrip_full", "C18_roundtrip_columns", "C18_float_roundtrip", "C18_current_schema_full", "C18_roundtrip_partial", "C18_current_schema", "C18_int_refuted", "C18_int_max_refuted", "C18_old_refuted",
                                    "C18_stale_schema_refuted"])
 
     ok, binp = vf.go_test_build(ck.work, "internal/server/tables",
@@ -176,8 +175,22 @@ def run(ck):
         add("string", json.dumps(s), ("str", s))
     for sec, nano, off in inst:
         add("timestamp", json.dumps(rfc3339(sec, nano, off)), ("ts", sec, nano, off))
-    for f in ["1.5", "0.1", "-2.25", "1e308", "5e-324", "3", "123456789012345680000", "1.7976931348623157e308", "2.2250738585072014e-308"]:
+    import struct
+    floats = ["0", "-0.0", "0.0", "1.5", "0.1", "-2.25", "3", "1e308", "1.7976931348623157e308", "-1.7976931348623157e308",
+              "5e-324", "-5e-324", "2.2250738585072014e-308", "2.225073858507201e-308", "1e21", "999999999999999900000", "1e20",
+              "1.0000000000000001e21", "123456789012345680000", "1e-6", "9.999999999999999e-7", "1e-7", "0.000001", "1E3", "1e+3",
+              "9007199254740993", "9007199254740992.0", "4.35", "0.30000000000000004", "2.5e-5", "1.7976931348623157E+308"]
+    while len(floats) < (60 if quick else 600):
+        x = struct.unpack("<d", struct.pack("<Q", ck.rng.getrandbits(64)))[0]
+        if x == x and abs(x) != float("inf"):
+            floats.append(repr(x))
+    if ck.replay_file:
+        floats = rp.get("floats", [])
+    for f in floats:
         add("float64", f, ("float", f))
+    if not ck.replay_file:
+        for f in ["1e999", "-1e999", "1.8e308"]:      # not finite as float64: the row must be refused, nothing stored
+            add("float64", f, ("nofloat", f))
     for f in ["0.5", "0.1", "16777217"]:
         add("float32", f, ("float", f))
     dates, tods = gen_dates(ck.rng, n // 3), gen_tods(ck.rng, n // 3)
@@ -297,9 +310,14 @@ def run(ck):
         elif meta[0] == "float":
             want = float(meta[1])
             if c["type"] == "float64" and (not isinstance(back, (int, float)) or float(back) != want):
-                report("float64-roundtrip", "float64 column: wrote %s, read back %s" % (meta[1], o["back"]), replay={"log": str(c)})
+                report("float64-roundtrip", "float64 column: wrote %s, read back %s (cell %s)" % (meta[1], o["back"], o["stored"]),
+                       replay={"floats": [meta[1]]})
             if c["type"] == "float32" and (not isinstance(back, (int, float)) or abs(float(back) - want) > abs(want) * 1e-6):
                 report("float32-roundtrip", "float32 column: wrote %s, read back %s" % (meta[1], o["back"]), replay={"log": str(c)})
+        elif meta[0] == "nofloat":
+            if o["insert"] == 200 or o["rows"]:
+                report("float-overflow-stored", "float64 column: %s is no finite float64 but the row was stored (read back %s, cell %s)" % (
+                    meta[1], o["back"] or "nothing", o["stored"]), replay={"floats": [meta[1]]})
         elif meta[0] == "date":
             got = parse_rfc3339(back) if isinstance(back, str) else None
             if chain_replay is None:
